@@ -148,8 +148,8 @@ def emit_c(name, prog, out, depth=0):
                 lines.append(p + "PT_FAIL();")
             elif k == "fail_on":
                 lines.append(p + "PT_FAIL_ON(%s);" % c_cond(s[1]))
-            elif k == "if" and len(s[2]) == 1 and len(s[3]) == 1 and s[2][0][0] not in ("if", "while", "if_child_ok", "spawn_check") \
-                    and s[3][0][0] not in ("if", "while", "if_child_ok", "spawn_check"):
+            elif k == "if" and len(s[2]) == 1 and len(s[3]) == 1 and s[2][0][0] not in ("if", "while", "if_child_ok") \
+                    and s[3][0][0] not in ("if", "while", "if_child_ok"):
                 # single-statement branches are emitted WITHOUT braces: the macros must behave as statements
                 lines.append(p + "if %s" % c_cond(s[1]))
                 gen(s[2], ind + 1)
@@ -257,7 +257,8 @@ def unbraced(K):
     singles = [("yield", ["yield"]), ("wait", ["wait"]), ("wu", ["wait_until", ["tickge", "", 2]]), ("exit", ["exit"]), ("fail", ["fail"]),
                ("exit_on_t", ["exit_on", ["tickge", "", 0]]), ("exit_on_f", ["exit_on", ["tickge", "", 9]]),
                ("fail_on_t", ["fail_on", ["ge", "b", 0]]), ("fail_on_f", ["fail_on", ["ge", "b", 5]]),
-               ("spawn0", ["spawn", 0]), ("spawn2", ["spawn", 2]), ("call0", ["call", 0]), ("eff", ["eff", 4])]
+               ("spawn0", ["spawn", 0]), ("spawn2", ["spawn", 2]), ("call0", ["call", 0]), ("eff", ["eff", 4]),
+               ("spawnchk0", ["spawn_check", 0]), ("spawnchk2", ["spawn_check", 2]), ("spawnchk4", ["spawn_check", 4])]
     for name, st in singles:
         for v in (0, 1):
             out.append({"name": "unbraced_then_%s_%d" % (name, v), "kids": K,
